@@ -1,7 +1,7 @@
 (* C11 -- property theorems only.  Proofs live in C11/Proofs*.v. *)
 From Coq Require Import NArith List Bool.
 From DV Require Import C02.ProofsName.
-From DV Require Import Base.Outcome Base.Bytes Base.Names Base.PName C11.Gen C11.Model C11.Proofs C11.Proofs2 C11.Proofs3 C11.Proofs4 C11.Proofs5 C11.Proofs6 C11.Proofs7 C11.Proofs8 C11.Proofs9 C11.ProofsA.
+From DV Require Import Base.Outcome Base.Bytes Base.Names Base.PName C11.Gen C11.Model C11.Proofs C11.Proofs2 C11.Proofs3 C11.Proofs4 C11.Proofs5 C11.Proofs6 C11.Proofs7 C11.Proofs8 C11.Proofs9 C11.ProofsA C11.Generate C11.ProofsB.
 Import ListNotations.
 Local Open Scope N_scope.
 
@@ -411,3 +411,27 @@ Theorem C11_sign_verify_sequence_stream : forall mac,
     cseq_done (fst (client_feed mac kr (CSeq c f 0) ws its)) = Ok tt.
 Proof. exact sequence_stream. Qed.
 Print Assumptions C11_sign_verify_sequence_stream.
+
+(* Key::generate, the constructor next to Key::new: the key is the one Key::new
+   builds from the generated octets (so every theorem above covers generated
+   keys), min_mac_len and signing_len land in the fields they were given for,
+   and the constructor fails exactly on a length outside the RFC 8945 bounds *)
+Theorem C11_generate_is_new_on_generated_octets : forall a rnd nm mn sg,
+  key_generate a rnd nm mn sg =
+    do k <- key_new a (firstn (N.to_nat (native_len a)) rnd) nm mn sg; Ok (k, k_secret k).
+Proof. exact generate_as_new. Qed.
+Print Assumptions C11_generate_is_new_on_generated_octets.
+
+Theorem C11_generate_honours_truncation_settings : forall a rnd nm mn sg k bits,
+  key_generate a rnd nm mn sg = Ok (k, bits) ->
+  k_alg k = a /\ k_secret k = bits /\ k_name k = nm /\
+  k_min k = setting a mn /\ k_sign k = setting a sg /\
+  within_len_bounds a (k_min k) = true /\ within_len_bounds a (k_sign k) = true.
+Proof. exact generate_honours_settings. Qed.
+Print Assumptions C11_generate_honours_truncation_settings.
+
+Theorem C11_generate_fails_iff_out_of_bounds : forall a rnd nm mn sg,
+  (exists kb, key_generate a rnd nm mn sg = Ok kb) <->
+  (forall l, mn = Some l -> within_len_bounds a l = true) /\ (forall l, sg = Some l -> within_len_bounds a l = true).
+Proof. exact generate_rejects. Qed.
+Print Assumptions C11_generate_fails_iff_out_of_bounds.
